@@ -194,15 +194,33 @@ func genPage(g *prng.R, box string) M {
 		} else {
 			id = fmt.Sprintf("%s/act/%d", pick(g, R1, R2, L), g.Intn(100000))
 		}
-		if g.Chance(1, 3) {
-			items = append(items, M{"type": pick(g, "Create", "Like", "Note", "Announce"), "id": id, "summary": fmt.Sprintf("s%d", i)})
-		} else {
+		switch {
+		case g.Chance(1, 3):
+			it := M{"type": pick(g, "Create", "Like", "Note", "Announce", "Tombstone", "Question", "Person"), "id": id, "summary": fmt.Sprintf("s%d", i)}
+			if g.Chance(1, 4) {
+				// a page is served as supplied: hidden recipients on its
+				// items are the application's business, not removed here
+				it["bto"] = R1 + "/users/hidden"
+				it["bcc"] = A{R2 + "/users/hidden2"}
+			}
+			items = append(items, it)
+		case g.Chance(1, 8):
+			// a Link is identified by its href
+			items = append(items, M{"type": pick(g, "Link", "Mention"), "href": id, "name": fmt.Sprintf("l%d", i)})
+		default:
 			items = append(items, id)
 		}
 	}
 	p := M{"@context": AS, "type": "OrderedCollectionPage", "id": box}
-	if len(items) > 0 {
+	if len(items) == 1 && g.Bool() {
+		p["orderedItems"] = items[0] // a single value written as a scalar
+	} else if len(items) > 0 {
 		p["orderedItems"] = items
+	}
+	if g.Chance(1, 4) {
+		p["prev"] = box + "?page=0"
+		p["startIndex"] = g.Intn(3)
+		p["totalItems"] = len(items) + g.Intn(100)
 	}
 	if g.Bool() {
 		p["partOf"] = box + "/all"
@@ -216,7 +234,7 @@ func genPage(g *prng.R, box string) M {
 func init() {
 	checks["c20"] = func(id string) int {
 		r := newRun(id, "exploration")
-		r.Rule = "GetInbox / GetOutbox with seeded random ordered-collection pages of 0..30 items (IRIs or embedded values, duplicates at arbitrary positions) and the ActivityStreams handler with stored values of every vocabulary type carrying bto/bcc through 'object', a Tombstone, and a missing value; pairs of GETs (any two of the three entry points) in which the first is held inside its first Header / WriteHeader / Write call while the second is served completely on another goroutine, both judged; clock instants over years 1..9999 and offsets -12..+14h; body, status, Content-Type, Date and Digest are compared with an independent model (own de-duplication, own IMF-fixdate formatter, own SHA-256 of the written bytes); non-trivial = a body was written and compared; distinct by scenario"
+		r.Rule = "GetInbox / GetOutbox with seeded random ordered-collection pages of 0..30 items (IRIs or embedded values, duplicates at arbitrary positions) and the ActivityStreams handler with stored values of every vocabulary type carrying bto/bcc through 'object', a Tombstone, and a missing value; actors from every constructor, handlers for the http scheme, ResponseWriters with headers already set; three GETs in a row on one entry point with the application's answer and clock changed in between; pairs of GETs (any two of the three entry points) in which the first is held inside its first Header / WriteHeader / Write call while the second is served completely on another goroutine, both judged; clock instants over years 1..9999 and offsets -12..+14h; body, status, Content-Type, Date and Digest are compared with an independent model (own de-duplication, own IMF-fixdate formatter, own SHA-256 of the written bytes); non-trivial = a body was written and compared; distinct by scenario"
 		r.Assumptions = []string{"pages and stored values are in canonical lexical form so the model's expected body is the supplied JSON itself", "a scalar and a one-element list are the same serialised property value"}
 		O, err := onto.Load(onto.DefaultFiles(verdict.Repo()))
 		if err != nil {
@@ -232,6 +250,9 @@ func init() {
 		}
 		judgeResp = func(sc *sim.Scenario, kind string, supplied M, rp sim.Response, tag string) {
 			if rp.Panic != "" {
+				// nothing (or half a response) was served for a legal value
+				r.Violate(verdict.Sig{Rule: "C20.not-served", Site: sim.PanicSite(rp.Stack), Feature: kind + tag + ": panic"}, witness{Scenario: sc},
+					map[string]interface{}{"message": "the request panicked: " + rp.Panic, "response": rp})
 				return
 			}
 			viol := func(rule, site, feature, msg string) {
@@ -243,7 +264,7 @@ func init() {
 				site = "pub.NewActivityStreamsHandlerScheme"
 			}
 			if supplied == nil {
-				if rp.Err == "" || rp.Err != "go-fed/activity: ActivityStreams data not found" || len(rp.Statuses) > 0 || rp.Writes > 0 {
+				if rp.Err == "" || !strings.Contains(rp.Err, "ActivityStreams data not found") || len(rp.Statuses) > 0 || rp.Writes > 0 {
 					viol("missing-value", site, kind, fmt.Sprintf("err=%q statuses=%v writes=%d", rp.Err, rp.Statuses, rp.Writes))
 				}
 				r.NonTrivial("missing|" + sc.Name)
@@ -281,11 +302,25 @@ func init() {
 			if supplied["type"] == "Tombstone" {
 				wantStatus = 410
 			}
-			if len(rp.Statuses) != 1 || rp.Statuses[0] != wantStatus {
-				viol("status", site, kind, fmt.Sprintf("statuses=%v want %d", rp.Statuses, wantStatus))
+			// the status that goes out: an implicit 200 once the body is
+			// written without (or before) a WriteHeader, else the explicit one
+			effective := 0
+			switch {
+			case rp.WriteBeforeStatus || len(rp.Statuses) == 0 && rp.Writes > 0:
+				effective = 200
+			case len(rp.Statuses) > 0:
+				effective = rp.Statuses[0]
 			}
-			if ct := rp.Header["Content-Type"]; ct != sim.APHeader {
+			if effective != wantStatus || len(rp.Statuses) > 1 || rp.WriteBeforeStatus && len(rp.Statuses) > 0 {
+				viol("status", site, kind, fmt.Sprintf("statuses=%v (body written before any status: %v) want %d", rp.Statuses, rp.WriteBeforeStatus, wantStatus))
+			}
+			if ct := rp.Header["Content-Type"]; ct != sim.APHeader && ct != "application/activity+json" {
 				viol("content-type", "pub.addResponseHeaders", kind, fmt.Sprintf("Content-Type=%q", ct))
+			}
+			for _, hn := range []string{"Content-Type", "Date", "Digest"} {
+				if vs := rp.HeaderAll[hn]; len(vs) > 1 {
+					viol(strings.ToLower(hn), "pub.addResponseHeaders", kind+": "+hn+" sent twice", fmt.Sprintf("%s has %d values: %q", hn, len(vs), vs))
+				}
 			}
 			if d := rp.Header["Date"]; d != httpDate(sc.Cfg.ClockUnix) {
 				viol("date", "pub.addResponseHeaders", kind, fmt.Sprintf("Date=%q want %q", d, httpDate(sc.Cfg.ClockUnix)))
@@ -364,6 +399,23 @@ func init() {
 					sc.OutboxPage = page
 				}
 				sc.Requests = []sim.Request{sim.GetReq(kind, box)}
+				// the other constructors serve the boxes too: a
+				// federating-only actor, a social-only one (its outbox), a
+				// custom delegate with both protocols off
+				switch g.Intn(8) {
+				case 0:
+					sc.Cfg.Social = false
+				case 1:
+					if kind == "GetOutbox" {
+						sc.Cfg.Federating = false
+					}
+				case 2:
+					sc.Cfg.Social, sc.Cfg.Federating = false, false
+				}
+				if g.Chance(1, 5) {
+					// middleware in front of the handler has set headers already
+					sc.Requests[0].PresetHeader = map[string][]string{"Content-Type": {"text/html; charset=utf-8"}, "Date": {"Thu, 01 Jan 1970 00:00:00 GMT"}, "Digest": {"SHA-256=stale"}, "X-Request-Id": {"abc"}}
+				}
 				sc.Name = fmt.Sprintf("%s#%d", kind, i)
 				if i < 2 {
 					r.Sample(map[string]interface{}{"kind": kind, "page": page, "clock_unix": sc.Cfg.ClockUnix, "offset_min": sc.Cfg.ClockOffsetMin})
@@ -399,7 +451,20 @@ func init() {
 							m["name"] = "n"
 						}
 						if O.HasProp(t, "ActivityStreamsBto") {
-							genAddressing(m, pool, g, 1)
+							genAddressing(m, pool, g, 0)
+							// hidden recipients in every combination: none,
+							// bto only, bcc only, both
+							delete(m, "bto")
+							delete(m, "bcc")
+							switch g.Intn(4) {
+							case 1:
+								m["bto"] = pool[g.Intn(len(pool))]
+							case 2:
+								m["bcc"] = A{pool[g.Intn(len(pool))], M{"type": "Person", "id": pool[0]}}
+							case 3:
+								m["bto"] = A{pool[g.Intn(len(pool))]}
+								m["bcc"] = pool[g.Intn(len(pool))]
+							}
 						}
 						if d > 0 && O.HasProp(t, "ActivityStreamsObject") {
 							var objs A
@@ -430,8 +495,19 @@ func init() {
 						doc["@context"] = cl
 					}
 					id := doc["id"].(string)
+					rq := sim.GetReq("Handler", id)
+					if g.Chance(1, 6) {
+						// a handler built for another scheme serves the ids of that scheme
+						id = strings.Replace(id, "https://", "http://", 1)
+						doc["id"] = id
+						rq = sim.GetReq("Handler", id)
+						rq.Scheme = "http"
+					}
+					if g.Chance(1, 6) {
+						rq.PresetHeader = map[string][]string{"Content-Type": {"text/html"}, "Digest": {"SHA-256=stale"}}
+					}
 					sc.Store[id] = doc
-					sc.Requests = []sim.Request{sim.GetReq("Handler", id)}
+					sc.Requests = []sim.Request{rq}
 					sc.Name = fmt.Sprintf("handler-%s#%d", tk, rep)
 					if tk == "ActivityStreamsCreate" && rep == 0 {
 						r.Sample(map[string]interface{}{"kind": "Handler", "stored": doc})
@@ -499,6 +575,61 @@ func init() {
 				r.Count("interleavings."+outer.DuringAt, 1)
 				judgeResp(sc, k1, sup1, rp, "|preempted")
 				judgeResp(sc, k2, sup2, rp.Inner[0], "|served-meanwhile")
+			})
+		}
+		nSeq := 400
+		if thorough() {
+			nSeq = 20000
+		}
+		for i := 0; i < nSeq; i++ {
+			i := i
+			jobs = append(jobs, func() {
+				g := prng.New(r.SeedV, "c20.sequence", i)
+				sc := baseScenario()
+				clock(sc, g)
+				kind := pick(g, "GetInbox", "GetOutbox", "Handler")
+				var sups []M
+				for k := 0; k < 3; k++ {
+					var rq sim.Request
+					ch := &sim.Change{}
+					// the clock moves on (or not) between the requests
+					cu := sc.Cfg.ClockUnix + int64(k*g.Intn(4000))
+					cn := g.Intn(1000000000)
+					ch.ClockUnix, ch.ClockNanos = &cu, &cn
+					switch kind {
+					case "GetInbox":
+						p := genPage(g, aliceIn())
+						ch.InboxPage = p
+						rq = sim.GetReq(kind, aliceIn())
+						sups = append(sups, p)
+					case "GetOutbox":
+						p := genPage(g, aliceOut())
+						ch.OutboxPage = p
+						rq = sim.GetReq(kind, aliceOut())
+						sups = append(sups, p)
+					default:
+						id := L + "/notes/changing"
+						doc := M{"@context": AS, "type": pick(g, "Note", "Tombstone", "Article"), "id": id, "content": strings.Repeat("v", g.Intn(300)) + fmt.Sprint(k)}
+						if g.Bool() {
+							doc["bcc"] = R1 + "/users/hidden"
+						}
+						ch.Put = map[string]interface{}{id: doc}
+						rq = sim.GetReq(kind, id)
+						sups = append(sups, doc)
+					}
+					rq.Before = ch
+					sc.Requests = append(sc.Requests, rq)
+				}
+				sc.Name = fmt.Sprintf("sequence-%s#%d", kind, i)
+				res := sim.Run(sc)
+				r.Eval(1)
+				observeLog(r, res)
+				for k, rp := range res.Responses {
+					// each response is judged under the clock of its request
+					c2 := *sc
+					c2.Cfg.ClockUnix = *sc.Requests[k].Before.ClockUnix
+					judgeResp(&c2, kind, sups[k], rp, fmt.Sprintf("|request %d of a sequence", k+1))
+				}
 			})
 		}
 		jobs = append(jobs, func() {
